@@ -87,8 +87,10 @@ def main(run):
                 "imputer.impute, storage.update, storage.get_data) of the fault-free call is measured and, for every k <= K, the call "
                 "is re-executed from the identical pre-state (deepcopy + generator states) with the k-th invocation raising "
                 "InjectedFault; asserted: the same exception object propagates, the public snapshot (importance_values, variances, "
-                "marginal_loss, model_loss, marginal_prediction incl. key sets) is equal before and after, and after resuming the "
-                "stream for 4 calls the C01 identity holds exactly after each; plus random multi-fault schedules (up to 3 faults, "
+                "marginal_loss, model_loss, marginal_prediction incl. key sets) is equal before and after; injected exception types cycle "
+                "through 11 classes (custom, ValueError, KeyError, IndexError, RuntimeError, TypeError, ZeroDivisionError, ...); after "
+                "resuming the stream for 3 calls the C01 identity holds exactly after each and the estimates equal those of a twin that "
+                "never saw the failed call (same storage content and generator state), i.e. no hidden estimate state changed; plus random multi-fault schedules (up to 3 faults, "
                 "consecutive faulty calls); evaluations = injected faults judged; non-trivial = distinct (config, call, position, "
                 "callback site) with a non-empty pre-state")
     run.assumptions = ["single-fault space of each generated (config, stream) is enumerated completely; configs and streams are sampled",
@@ -132,6 +134,7 @@ def main(run):
                 b = copy.deepcopy(sc)
                 rng_restore(pre)
                 b.clock.fail_at_next = k
+                b.clock.fault_salt = t + seed
                 raised = None
                 try:
                     call(b, x, y, kw)
@@ -144,10 +147,14 @@ def main(run):
                 run.ok(kind="fault@" + site)
                 replay = {"cfg": cfgd, "seed": seed, "call": t, "fault_position": k, "callbacks_in_call": K, "site": site, "kwargs": kw}
                 tag = f"{cfgd['explainer']} call {t} fault at callback #{k}/{K} ({site})"
-                if not isinstance(raised, InjectedFault):
-                    run.violation(f"exception-not-propagated:{cfgd['explainer']}", f"{tag}: explain_one returned / raised {raised!r}", replay)
+                replay["exception_type"] = type(b.clock.last_fault).__name__
+                if raised is None or raised is not b.clock.last_fault:
+                    run.violation(f"exception-not-propagated:{cfgd['explainer']}",
+                                  f"{tag}: the callback raised {b.clock.last_fault!r} but explain_one "
+                                  f"{'returned normally' if raised is None else 'raised ' + repr(raised)}", replay)
                     stop = True
                     break
+                run.see("exception-types", type(raised).__name__)
                 after = b.snapshot()
                 if not (after == before):
                     diff = [key for key in before if not (before[key] == after.get(key))]
@@ -157,18 +164,42 @@ def main(run):
                     stop = True
                 if t > 0 or what != "incr":
                     run.nontriv((cfgd["explainer"], seed, t, k, site))
-                # resume the stream and re-assert C01 (SAGE, exact)
-                if is_sage and t > 0:     # (a fault in call 0 leaves the storage empty: nothing to resume on)
-                    for r in range(4):
+                # resume the stream: (i) C01 identity (SAGE, exact); (ii) the trajectory must equal that of a twin that never
+                # saw the failed call (same storage content, same generator state): hidden estimate state untouched as well
+                if t > 0 and what == "incr":
+                    twin2 = copy.deepcopy(sc)
+                    same_storage = [id(type(r)) for r in ()] == [] and \
+                        [dict(r) for r in twin2.storage.get_data()[0]] == [dict(r) for r in b.storage.get_data()[0]]
+                    for r in range(3):
                         x2, y2 = b.next_obs()
-                        b.step(x2, y2)
-                        run.ok(kind="resumed-c01")
-                        if not c01_ok(b.e):
-                            run.violation("c01-after-fault", f"{tag}: after resuming {r + 1} calls sum(importance) != explained_loss", replay)
+                        twin2.next_obs()
+                        st_rng = rng_state()
+                        try:
+                            b.step(x2, y2)
+                        except Exception as ex:
+                            run.violation(f"resume-raises:{cfgd['explainer']}", f"{tag}: resumed call raised {type(ex).__name__}: {ex}", replay)
                             stop = True
                             break
-                        if stop:
-                            break
+                        if is_sage:
+                            run.ok(kind="resumed-c01")
+                            if not c01_ok(b.e):
+                                run.violation("c01-after-fault", f"{tag}: after resuming {r + 1} calls sum(importance) != explained_loss", replay)
+                                stop = True
+                                break
+                        if same_storage:
+                            rng_restore(st_rng)
+                            twin2.step(x2, y2)
+                            run.ok(kind="resumed-twin")
+                            sa, sb = b.snapshot(), twin2.snapshot()
+                            if not (sa == sb):
+                                diff = [key for key in sa if not (sa[key] == sb.get(key))]
+                                run.violation(f"hidden-state-changed:{cfgd['explainer']}",
+                                              f"{tag}: after resuming {r + 1} calls {diff} differ from a twin that never saw the failed call, "
+                                              f"e.g. {diff[0]}: {sa[diff[0]]!r} vs {sb[diff[0]]!r}", replay)
+                                stop = True
+                                break
+                        else:
+                            run.count("twin-comparison-skipped(storage-differs)")
                 if stop:
                     break
             if stop:
